@@ -3,3 +3,4 @@ pub mod full;
 pub mod print;
 pub mod prog;
 pub mod text;
+pub mod walk;
